@@ -1,3 +1,4 @@
+pub mod apstress;
 pub mod c03;
 pub mod c05;
 pub mod c10;
@@ -40,12 +41,14 @@ pub fn dispatch(args: &[String]) -> i32 {
         "conn" => conn::main(&a),
         "c05" => c05::main(&a),
         "c03" => c03::main(&a),
+        "apstress" => apstress::main(&a),
         "c10" => c10::main(&a),
         "c13" => c13::main(&a),
         "table-tiebreak" => tables::tiebreak(&a),
         "replay-inflight" => tower::replay_inflight(&a),
         "replay-auth" => tower::replay_auth(&a),
         "replay-rate" => tower::replay_rate(&a),
+        "rate-hint-probe" => tower::rate_hint_probe(&a),
         other => {
             eprintln!("unknown scenario {other}");
             2
